@@ -325,6 +325,28 @@ class _Unroller:
     def table(self, it, cls_scope, local_names):
         if _is_table(it):
             return it
+        if isinstance(it, ast.Call) and isinstance(
+                it.func, ast.Name) and it.func.id == 'zip' and len(
+                    it.args) == 2 and not it.keywords:
+            # zip(TABLE, xs) / zip(xs, TABLE): rows (cell, xs[i])
+            a, b = it.args
+            ta = self.table(a, cls_scope, local_names)
+            tb = self.table(b, cls_scope, local_names)
+            if (ta is None) != (tb is None):
+                t, other, first = (ta, b, True) if ta is not None else (
+                    tb, a, False)
+                if _simple_cell(other) and isinstance(
+                        other, (ast.Name, ast.Attribute)):
+                    rows = []
+                    for i, cell in enumerate(t.elts):
+                        sub = ast.Subscript(value=copy.deepcopy(other),
+                                            slice=ast.Constant(i),
+                                            ctx=ast.Load())
+                        pair = [cell, sub] if first else [sub, cell]
+                        rows.append(ast.Tuple(elts=pair, ctx=ast.Load()))
+                    return ast.copy_location(ast.Tuple(
+                        elts=rows, ctx=ast.Load()), it)
+            return None
         if isinstance(it, ast.Name):
             v = self.fn_tables.get(it.id)
             if v is not None and _is_table(v):
